@@ -145,6 +145,10 @@ def random_case(rng, name, types=None, length=(15, 45), tags=("random",)):
             elif lt == "REQ" and rng.random() < 0.8:
                 frames = [b""] + rng.choice(payloads)
             data = zmtp.message(frames)
+            if rng.random() < 0.07:
+                # a COMMAND frame in the middle of the traffic (a redundant READY: the only command this library parses) —
+                # the fair-queue sockets ignore it, REQ reports it as the (failed) answer to its request
+                data = zmtp.ready(pt, None) + (data if rng.random() < 0.5 else b"")
             if rng.random() < 0.25 and len(data) > 1:
                 c = rng.randrange(1, len(data))
                 sc.add(f"reveal {p} {hx(data[:c])}")
